@@ -71,7 +71,7 @@ def gint(r, prof):
     if x < 0.6:
         return r.choice([v for v in [0, 1, 2, 3, 7, 10, 11, 12, 100, 101, 123456] if v >= lo])
     if x < 0.75:
-        return -r.choice([2, 3, 10, 12])
+        return -r.choice([1, 2, 2, 3, 10, 12]) if prof.bool_with_01 else -r.choice([2, 3, 10, 12])
     if x < 0.9 or not prof.big_ints:
         return r.randint(lo, 1000)
     return r.choice([255, 256, 65535, 65536, 2**31, 2**32, 2**53, 2**63, 2**64, 10**30])
@@ -128,10 +128,28 @@ MUTATION_OPS = ["edit-scalar", "retype-scalar", "rename-key", "insert", "delete"
                 "permute-keys", "edit-string"]
 
 
+def _colliders(prof):
+    """Values whose Python hashes coincide although the values differ (hash(-1) == hash(-2); 0, False, "" and empty containers
+    all hash like 0): what a comparison that trusts hashes cannot tell apart."""
+    out = [-1, -2, {}, []]
+    if prof.bool_with_01:
+        out += [0, False]
+    if prof.empty_strings and prof.strings == "hostile":
+        out += [""]
+    if prof.none:
+        out += [None]
+    return out
+
+
 def mutate(r, o, prof=HOSTILE, ops=None, rate=0.35):
     """Derive a related document by a random script of known operations; `ops` (a list) records them."""
     if ops is None:
         ops = []
+    if (o is None or isinstance(o, (bool, int, str)) or o == {} or o == []) and r.random() < 0.3:
+        cs = _colliders(prof)
+        if any(type(c) is type(o) and c == o for c in cs):
+            ops.append("hash-collision-twin")
+            return copy.deepcopy(r.choice([c for c in cs if not (type(c) is type(o) and c == o)]))
     if r.random() < 0.08:
         ops.append("replace-subtree")
         return gdoc(r, prof, 1)
